@@ -42,6 +42,15 @@ def estOps (op : String) : Option (P String) :=
   | "clf" => some do   -- decision value -> predicted index, binary probability (code path), expit
       let d ← pFloat
       pure s!"{fmtB (predictBinary d)} {fmt (probaBinary d).1} {fmt (probaBinary d).2} {fmt (sigmoidProba d)}"
+  | "cache_hist" => some do   -- requests `(cls spec f32)*` -> identity of the class returned by each
+      let k ← pNat
+      let mut reqs : Array CacheKey := Array.mkEmpty k
+      for _ in [0:k] do
+        let c ← pNat; let sp ← pNat; let f ← pBool
+        reqs := reqs.push { cls := c, spec := sp, f32 := f }
+      pure (" ".intercalate ((cacheIds reqs.toList).map (fun o => match o with
+        | some i => "i" ++ toString i
+        | none => "none")))
   | "svc_primal" => some do
       let n ← pNat; let p ← pNat; let X ← pMatNP n p; let ypm ← pVecN n; let dual ← pVecN n
       pure (fmtVec (svcPrimal X ypm dual))
